@@ -448,6 +448,11 @@ class CallMixin:
                     self.helpers.add('assert')
                     return f'(({obj}).n = 0, &({obj}).e[1])'
                 return f'(({obj}).n ? (({obj}).n = 0, (uint64_t)1) : (uint64_t)0)'
+            if m in ('try_emplace', 'emplace') and len(args) == 2:
+                # single-key view: inserts only when the entry is absent (the returned pair is modelled by its bool)
+                return f'(({obj}).n ? (_Bool)0 : (({obj}).e[0].second = {self.value_of(args[1])}, ({obj}).n = 1, (_Bool)1))'
+            if m == 'insert_or_assign' and len(args) == 2:
+                return f'(({obj}).e[0].second = {self.value_of(args[1])}, ({obj}).n = 1, (_Bool)1)'
             if m == 'at' and len(args) == 1:
                 o = obj
                 self.maythrow_inline(f'!({o}).n', 'std::out_of_range')
